@@ -157,7 +157,7 @@ func fnCoqType(k string) string {
 	switch {
 	case k == "bool", k == "errnil":
 		return "bool"
-	case k == "errv":
+	case k == "errv", k == "err":
 		return "(option err)"
 	case k == "reader":
 		return "(list rev)"
@@ -217,7 +217,7 @@ func fnZero(k string) string {
 		return "(s\"0\")"
 	case k == "val":
 		return "VNil"
-	case k == "tok", k == "errv":
+	case k == "tok", k == "errv", k == "err":
 		return "None"
 	case k == "byte":
 		return "zero_byte"
@@ -1971,6 +1971,24 @@ func (t *fnTr) assign(x *ast.AssignStmt, next func() string) string {
 			}
 			return t.newLocal(obj, id.Name, kind).name
 		}
+		// _, err = w.Write(p) / _, err := w.Write(p) on a writer: the bytes are appended, the error is nil (a bytes.Buffer)
+		if c, isCall := x.Rhs[0].(*ast.CallExpr); isCall {
+			if se, ok := c.Fun.(*ast.SelectorExpr); ok && se.Sel.Name == "Write" && len(c.Args) == 1 {
+				if wl := t.lvarOf(se.X); wl != nil && wl.kind == "writer" {
+					if a.Name != "_" {
+						t.unsupported(x, "the count returned by Write is used")
+					}
+					mark := len(t.guards)
+					pv := t.expr(c.Args[0])
+					vb := bind(b, "errv")
+					ty := ""
+					if define {
+						ty = " : (option err)"
+					}
+					return t.wrap(mark, "let "+wl.name+" := (app "+wl.name+" "+pv+") in let "+vb+ty+" := None in\n  "+next())
+				}
+			}
+		}
 		// n, err := rdr.Read(buf) on the io.Reader parameter with a local one-byte buffer
 		if c, isCall := x.Rhs[0].(*ast.CallExpr); isCall && define {
 			if se, ok := c.Fun.(*ast.SelectorExpr); ok && se.Sel.Name == "Read" && len(c.Args) == 1 {
@@ -3133,7 +3151,7 @@ func constTable(p *pkgInfo, vs *ast.ValueSpec, i int) (string, bool) {
 
 // the functions translated into Pure_gen.v ("Recv.Method" for methods)
 var pureFuncs = []string{"cast", "escapeChars", "parsePath", "getSubKeyMap", "hasSubKeys", "Map.PathForKeyShortest", "valuesForKeyPath", "hasKey", "hasKeyPath", "getLeafNodes",
-	"Map.ValuesForKey", "Map.oldValuesForPath", "Map.ValuesForPath", "Map.LeafNodes", "getJson", "NewMapJsonReader", "NewMapJsonReaderRaw", "Map.Exists", "Map.ValueForPath", "Map.ValueForKey", "Map.LeafPaths", "Map.LeafValues", "valuesForArray", "Map.PathsForKey", "byteReader.ReadByte", "teeReader.ReadByte", "Maps.JsonString", "Maps.JsonStringIndent", "Maps.XmlString", "Maps.XmlStringIndent", "BeautifyXml", "Map.Copy", "Map.Json", "Map.Root", "NewMapXml", "NewMapXmlSeq", "lastKey", "xmlToMapParser", "xmlSeqToMapParser"}
+	"Map.ValuesForKey", "Map.oldValuesForPath", "Map.ValuesForPath", "Map.LeafNodes", "getJson", "NewMapJsonReader", "NewMapJsonReaderRaw", "Map.Exists", "Map.ValueForPath", "Map.ValueForKey", "Map.LeafPaths", "Map.LeafValues", "valuesForArray", "Map.PathsForKey", "byteReader.ReadByte", "teeReader.ReadByte", "Maps.JsonString", "Maps.JsonStringIndent", "Maps.XmlString", "Maps.XmlStringIndent", "BeautifyXml", "Map.Copy", "Map.Json", "Map.Root", "NewMapXml", "NewMapXmlSeq", "lastKey", "xmlToMapParser", "xmlSeqToMapParser", "Map.JsonWriter", "Map.JsonWriterRaw", "Map.JsonIndentWriter", "Map.JsonIndentWriterRaw", "Map.XmlWriter", "Map.XmlIndentWriter", "MapSeq.XmlWriter", "MapSeq.XmlIndentWriter"}
 
 func genPure(p *pkgInfo) string {
 	vars, _ := pkgVars(p)
@@ -3330,7 +3348,7 @@ func genPure(p *pkgInfo) string {
 				t.locals[obj] = lv
 				t.used[n] = 1
 				params += fmt.Sprintf(" (%s : %s)", n, fnCoqType(k))
-				if strings.HasPrefix(k, "ptr:") || (k == "bmap" && mutated[obj]) || k == "reader" || k == "xdecoder" {
+				if strings.HasPrefix(k, "ptr:") || (k == "bmap" && mutated[obj]) || k == "reader" || k == "xdecoder" || k == "writer" {
 					lv.isState = true
 					t.state = append(t.state, lv)
 					if !isRecv {
